@@ -33,6 +33,7 @@ type W struct {
 	LocalClient2 api.FeatureLocalInterface // LoadControl client on entity [1]
 	Entity       api.EntityLocalInterface
 	Entity2      api.EntityLocalInterface
+	Entity3      api.EntityLocalInterface // [1,1]
 }
 
 var serverSpecs = []struct {
@@ -90,6 +91,13 @@ func NewWithUnannounced(n, k int) *W {
 		{Fn: s0.rw, Read: true, Write: true}, {Fn: s0.ro, Read: true},
 	}})
 	w.Servers = append(w.Servers, LocalServer{F: f2, Type: s0.ft, Writable: s0.rw, ReadOnly: s0.ro, Unannounced: s0.un})
+	// a sub-entity of [1] whose first feature has the same number as the first feature of [1]
+	le3 := w.AddLocalEntity([]uint{1, 1}, model.EntityTypeTypeEV, time.Second)
+	w.Entity3 = le3
+	f3 := w.AddLocalFeature(le3, world.FeatSpec{Type: s0.ft, Role: model.RoleTypeServer, Funcs: []world.FuncSpec{
+		{Fn: s0.rw, Read: true, Write: true}, {Fn: s0.ro, Read: true},
+	}})
+	w.Servers = append(w.Servers, LocalServer{F: f3, Type: s0.ft, Writable: s0.rw, ReadOnly: s0.ro, Unannounced: s0.un})
 	for i := 0; i < n; i++ {
 		if i >= n-k {
 			p := w.Connect(fmt.Sprintf("ski-%d", i+1), fmt.Sprintf("d:_r:peer%d", i+1))
@@ -122,7 +130,7 @@ var ClientRefs = []Ref{
 
 // ServerRefs are the candidate server-side references on the local device.
 var ServerRefs = []Ref{
-	{[]uint{1}, 1}, {[]uint{1}, 2}, {[]uint{1}, 3}, {[]uint{2}, 1}, // the server features (same order as W.Servers)
+	{[]uint{1}, 1}, {[]uint{1}, 2}, {[]uint{1}, 3}, {[]uint{2}, 1}, {[]uint{1, 1}, 1}, // the server features (same order as W.Servers)
 	{[]uint{1}, 4}, // the local client feature (wrong role)
 	{[]uint{1}, 9}, // unknown feature
 	{[]uint{4}, 1}, // unknown entity
